@@ -20,7 +20,7 @@ RULE = ('ENUMERATED: 17 estimators x applicable methods of {fit, transform, pair
 ASSUMPTIONS = ['with a preprocessor, 1-D (points) / 2-D (tuples) inputs are indicators by definition and are not malformed',
                'non-numeric means strings that do not parse as numbers; one tuple is a valid sample count',
                'pair-label alphabet is asserted for fit and calibrate_threshold (whose docs require +1/-1), not for score',
-               'equivalence of fitted models compared at rtol 1e-9 (closed form) / 1e-4 (iterative learners, which amplify one-ulp BLAS differences between memory layouts: observed 2e-7 for MLKR); query outputs of one fitted model at 1e-9; bitwise matches counted separately']
+               'equivalence of fitted models: deviation <= 1e-9 relative, or explained by a noise-floor control (3 refits on data perturbed by 1e-10 / 1e-9 relative; violation only above 100x the control): iterative learners amplify one-ulp BLAS differences between memory layouts (observed 2e-7 .. 1e-3 for MLKR on flat optima); query outputs of one fitted model at 1e-9']
 EXHAUSTIVE = True
 
 DESC0 = dict(d=3, sizes=[6, 6], seed=11, logscale=0, cond=1, sep=1.0, labels='range', grid=False)
@@ -298,10 +298,27 @@ def check_equiv(case, stats):
       raise Violation('C06/equiv/fit-outcome/%s/%s' % (v, name), '%r vs %r' % (rA, rB))
     raise Discard('SDML RuntimeError (specified outcome)')
   MA, MB = A.get_mahalanobis_matrix(), B.get_mahalanobis_matrix()
-  # memory layout changes BLAS summation order by an ulp; iterative learners amplify that
-  rtol = 1e-9 if name in ('Covariance', 'RCA', 'RCA_Supervised') else 1e-4
-  if MA.shape != MB.shape or not np.allclose(MA, MB, rtol=rtol, atol=rtol * np.abs(MA).max(initial=0.0)):
-    raise Violation('C06/equiv/fit/%s/%s' % (v, name), 'M differs: %r vs %r' % (MA, MB))
+  if MA.shape != MB.shape:
+    raise Violation('C06/equiv/fit/%s/%s' % (v, name), 'shapes %s vs %s' % (MA.shape, MB.shape))
+  scM = max(np.abs(MA).max(initial=0.0), 1e-300)
+  dev = float(np.abs(MA - MB).max(initial=0.0)) / scM
+  if dev > 1e-9:
+    # memory layout changes BLAS summation order by an ulp, and iterative learners with flat optima amplify that
+    # arbitrarily: the deviation is a violation only if it exceeds what <= 1e-9 relative perturbations of the
+    # float64 data cause (noise-floor control, as in C19)
+    worst = 0.0
+    base = np.asarray(fa[0], dtype=float)
+    for kk in range(3):
+      prs = np.random.RandomState(1234 + kk)
+      Xp = base + prs.randn(*base.shape) * np.abs(base).max() * (1e-10 if kk % 2 else 1e-9)
+      Cst = E.build(name, params)
+      rC = E.fit_call('C06/equiv-fit-control', name, Cst, [Xp] + fa[1:], desc_eff, params, expect=exp)
+      if not isinstance(rC, Exception):
+        MC = Cst.get_mahalanobis_matrix()
+        worst = max(worst, float(np.abs(MC - MA).max(initial=0.0)) / scM if MC.shape == MA.shape else 1.0)
+    if dev > 100 * worst + 1e-9:
+      raise Violation('C06/equiv/fit/%s/%s' % (v, name), 'M differs by %g relative (perturbation control %g): %r vs %r' % (dev, worst, MA, MB))
+    stats.inconclusive['equivalence: deviation explained by <=1e-9 perturbations (iterative learner)'] += 1
   if bits_equal(np.asarray(A.components_), np.asarray(B.components_)):
     stats.notes['fit bitwise equal'] += 1
   q = np.array(case['q'], dtype=float)
